@@ -473,7 +473,18 @@ class C17Noise(Machine):
                 held = ant.make_noise(w1)
                 hv = np.array(held.values, dtype=float)
                 ant.clear(reset_noise=True)
-                ant.make_noise(w2)
+                # the requested RMS of the antenna is changed while no realisation exists:
+                # the next realisation has the new one (compared only where at least ~30
+                # frequency components make the sample RMS a sharp estimate: 10x vs a 3x bar)
+                ant.noise_rms = 10.0
+                new_rms = float(np.sqrt(np.mean(np.array(ant.make_noise(w2).values, dtype=float) ** 2)))
+                old_rms = float(np.sqrt(np.mean(hv ** 2)))
+                if 0.25 * n * op["unique"] >= 30 and n >= 64:
+                    self.count("probe.rms_changed_after_reset")
+                    if not new_rms > 3.0 * old_rms:
+                        raise Violation("C17:rms-after-reset",
+                                        "noise_rms was raised from 1 to 10 after clear(reset_noise=True) but the "
+                                        "new realisation has sample RMS %.3g (the old one %.3g)" % (new_rms, old_rms))
                 # a waveform handed out (and read) before the reset is still a function of
                 # absolute time: re-gridding it reproduces what was read
                 sub = w1[2:max(4, n // 2)]
